@@ -105,6 +105,12 @@ def c2(rep, cov, tier):
         text, sites = unitgen.render(rec["unit"])
         cases.append({"id": len(cases), "files": [{"name": "unit.st", "text": text}]})
         meta.append((rec, text, sites))
+        # the same unit with every enumeration value used as an initial value written with its type prefix
+        # (grow:qualifyuse of Unit.tla, here applied to every behaviour so that it meets every plant)
+        if not rec["unit"].get("useq"):
+            text, sites = unitgen.render(dict(rec["unit"], useq=True))
+            cases.append({"id": len(cases), "files": [{"name": "unit.st", "text": text}]})
+            meta.append((rec, text, sites))
     res = vlib.harness("analyze", cases)
     n = 0
     for (rec, text, sites), rr in zip(meta, res):
